@@ -28,6 +28,7 @@ import (
 	"sort"
 	"strings"
 	"testing"
+	"time"
 
 	"github.com/pingcap/kvproto/pkg/metapb"
 	"github.com/tikv/pd/server/core"
@@ -64,9 +65,15 @@ type Label struct {
 	V string `json:"v"`
 }
 
+// State of a store: 0 Up, 1 Offline, 2 Offline and physically destroyed,
+// 3 Tombstone. Alive: the store's last heartbeat is recent (otherwise it never
+// sent one: disconnected / down). Neither plays a part in whether an existing
+// peer satisfies a rule (constraints and role only), so the oracle ignores both.
 type Store struct {
 	ID     uint64  `json:"id"`
 	Labels []Label `json:"labels,omitempty"`
+	State  int     `json:"state,omitempty"`
+	Alive  bool    `json:"alive,omitempty"`
 }
 
 // Role of a peer: 0 voter, 1 learner, 2 incoming voter, 3 demoting voter.
@@ -165,11 +172,16 @@ func mixCase(k string) string { return strings.ToUpper(k[:1]) + k[1:] }
 type flavour struct {
 	excl  int // 0 none, 1 sparse, 2 dense
 	mixed bool
+	decom bool // every store satisfying some rule is being removed (non-Up) and holds a peer
 	sched bool // regions are built the way the schedulers build candidate copies; leader/follower rules frequent
 }
 
 func genStore(t *rapid.T, id uint64, fl flavour) Store {
 	s := Store{ID: id}
+	s.Alive = !chance(t, 1, 4, "neverHeartbeat")
+	if chance(t, 1, 10, "notUp") {
+		s.State = rapid.IntRange(1, 3).Draw(t, "state")
+	}
 	for _, k := range locKeys {
 		if chance(t, 4, 5, "has-"+k) {
 			v := rapid.SampledFrom(locValues[k]).Draw(t, "v-"+k)
@@ -267,6 +279,7 @@ func genRule(t *rapid.T, fl flavour) Rule {
 func genCase(t *rapid.T) Case {
 	var c Case
 	fl := flavour{excl: rapid.SampledFrom([]int{0, 0, 1, 1, 2}).Draw(t, "exclFlavour"), mixed: chance(t, 1, 4, "mixedFlavour"), sched: chance(t, 1, 3, "schedFlavour")}
+	fl.decom = chance(t, 1, 4, "decomFlavour")
 	ns := rapid.IntRange(3, 8).Draw(t, "nstores")
 	for i := 0; i < ns; i++ {
 		c.Stores = append(c.Stores, genStore(t, uint64(i+1), fl))
@@ -284,7 +297,7 @@ func genCase(t *rapid.T) Case {
 		pool = append(pool, 101, 102)
 	}
 	c.Leader = -1
-	if chance(t, 1, 2, "template") {
+	if fl.decom && chance(t, 3, 4, "decomTemplate") || chance(t, 1, 2, "template") {
 		// peers made to measure for the rules: one per rule slot with the rule's role,
 		// preferably on a store satisfying the rule; then one dropped / one added.
 		type slot struct {
@@ -384,6 +397,40 @@ func genCase(t *rapid.T) Case {
 	c.PeerIDs = rapid.Permutation(seqU(np, 21)).Draw(t, "peerIDs2")
 	for i := 0; i < np; i++ {
 		c.Alt = append(c.Alt, rapid.IntRange(0, nr).Draw(t, "alt")-1)
+	}
+	if fl.decom {
+		// decommissioning the only stores behind a rule: every store satisfying the
+		// constraints of one rule (preferably a label-pinned one) is non-Up, and one
+		// of them holds a peer the rule's role accepts.
+		var pinned []int
+		for r := range c.Rules {
+			if len(c.Rules[r].Cons) > 0 {
+				pinned = append(pinned, r)
+			}
+		}
+		if len(pinned) == 0 || chance(t, 1, 6, "anyRule") {
+			pinned = seq(nr)
+		}
+		r := rapid.SampledFrom(pinned).Draw(t, "decomRule")
+		var m []int
+		holds := false
+		for i := range c.Stores {
+			if storeMatches(&c.Rules[r], &c.Stores[i]) {
+				m = append(m, i)
+				c.Stores[i].State = rapid.SampledFrom([]int{1, 1, 3, 2}).Draw(t, "decomState")
+				for _, p := range c.Peers {
+					holds = holds || p.Store == c.Stores[i].ID
+				}
+			}
+		}
+		if !holds && len(m) > 0 {
+			for i := range c.Peers {
+				if c.Rules[r].Role != "learner" || c.Peers[i].Role == 1 {
+					c.Peers[i].Store = c.Stores[rapid.SampledFrom(m).Draw(t, "decomHome")].ID
+					break
+				}
+			}
+		}
 	}
 	if fl.sched && np > 0 {
 		// stores without a peer (plus one id the cluster does not know)
@@ -714,12 +761,27 @@ func buildStores(c *Case, order []int) *storeSet {
 		for _, l := range s.Labels {
 			meta.Labels = append(meta.Labels, &metapb.StoreLabel{Key: l.K, Value: l.V})
 		}
-		si := core.NewStoreInfo(meta)
+		var opts []core.StoreCreateOption
+		switch s.State {
+		case 1:
+			opts = append(opts, core.OfflineStore(false))
+		case 2:
+			opts = append(opts, core.OfflineStore(true))
+		case 3:
+			opts = append(opts, core.TombstoneStore())
+		}
+		if s.Alive {
+			// a constant far in the future: "recent" for ever, no wall clock in the case
+			opts = append(opts, core.SetLastHeartbeatTS(heartbeatRecent))
+		}
+		si := core.NewStoreInfo(meta, opts...)
 		ss.list = append(ss.list, si)
 		ss.byID[s.ID] = si
 	}
 	return ss
 }
+
+var heartbeatRecent = time.Date(2200, 1, 1, 0, 0, 0, 0, time.UTC)
 
 var metaRoles = []metapb.PeerRole{metapb.PeerRole_Voter, metapb.PeerRole_Learner, metapb.PeerRole_IncomingVoter, metapb.PeerRole_DemotingVoter}
 
@@ -1345,6 +1407,31 @@ func runCase(c Case) (vkit.Info, error) {
 	info.ClassIf(mixed, "mixed-case-label")
 	info.ClassIf(c.Leader < 0 && len(c.Peers) > 0, "leaderless")
 	info.ClassIf(len(c.Build) > 0, "scheduler-built-region")
+	// store state classes
+	nonUpPeer, deadPeer, ruleOnlyNonUp := false, false, false
+	for i := range c.Peers {
+		if st := w.peers[i].store; st != nil {
+			nonUpPeer = nonUpPeer || st.State != 0
+			deadPeer = deadPeer || !st.Alive
+		}
+	}
+	for r := range c.Rules {
+		up, placedOnNonUp := false, false
+		for si := range c.Stores {
+			if storeMatches(&c.Rules[r], &c.Stores[si]) && c.Stores[si].State == 0 {
+				up = true
+			}
+		}
+		for i, a := range asg {
+			if a == r && w.peers[i].store.State != 0 {
+				placedOnNonUp = true
+			}
+		}
+		ruleOnlyNonUp = ruleOnlyNonUp || (!up && placedOnNonUp)
+	}
+	info.ClassIf(nonUpPeer, "peer-on-non-up-store")
+	info.ClassIf(deadPeer, "peer-on-never-heartbeating-store")
+	info.ClassIf(ruleOnlyNonUp, "rule-filled-from-non-up-stores-only")
 	info.ClassIf(staleLeaderRecord, "leader-record-names-old-store")
 	strictLeaderRule := false
 	for _, r := range c.Rules {
